@@ -59,6 +59,24 @@ def run(tier):
                  nontrivial_fn=ends_in_display)
     cc.sim_phase(chk, PID, "groups", config("groups"), MINE, 9000 if th else 1000, 8, dict(pctx, scenario="tmpl", numeric=False, pnu=4, tmpl_loss=True),
                  nontrivial_fn=ends_in_display)
+    # the smallest constructible circuit (outside LwCircuit's scopes, which start at two modes)
+    import lightworks as lw
+    from ..common import library_raised
+    import matplotlib.pyplot as plt
+    for n_modes in (0, 1):
+        for t in ("svg", "mpl"):
+            chk.count(key="tiny%d%s" % (n_modes, t))
+            try:
+                lw.Display(lw.Circuit(n_modes), display_type=t)
+            except Exception as e:  # noqa: BLE001
+                if not library_raised(e):
+                    raise
+                chk.violation("valid_call_raised", "Display(Circuit(%d), display_type=%r) raised %s: %s" % (n_modes, t, type(e).__name__, e),
+                              script={"directed": "Circuit(%d)" % n_modes, "display_type": t},
+                              sig={"call": "Display", "n_modes": n_modes, "exception": type(e).__name__})
+            finally:
+                plt.close("all")
+    chk.add_phase("directed: circuits with zero and one mode", cases=4)
     chk.assumptions = ["TLC 1.8 + CommunityModules", "the specification says nothing about what the picture looks like; only 'drawn or DisplayError' and 'no side effect'",
                        "matplotlib Agg backend"]
     return chk.finish()
